@@ -12,9 +12,9 @@
 From Coq Require Import List NArith ZArith Bool Lia.
 From ApiFu Require Import Base.Sexp.
 From ApiFu Require Syn.Ast Syn.ParserModel Syn.FrontEnd.
-From ApiFu Require Vld.Ast Vld.ValidatorModel Vld.ValidSpec Vld.ProofsCommon Vld.ProofsFragDecl Vld.ValidatorProofs Vld.TypeInfoPure.
+From ApiFu Require Vld.Ast Vld.ValidatorModel Vld.ValidSpec Vld.ProofsCommon Vld.ProofsFragDecl Vld.ValidatorProofs Vld.TypeInfoPure Vld.MemoEquiv.
 From ApiFu Require Val.Values ExeA.ArgData ExeA.ArgArgs ExeA.ArgModel ExeA.ArgSpec ExeA.ArgHyps.
-From ApiFu Require Import Pipe.Convert Pipe.Compose Pipe.SchemaAgree Pipe.PositionsProofs Pipe.ComposeProofs.
+From ApiFu Require Import Pipe.Convert Pipe.Compose Pipe.SchemaAgree Pipe.PositionsProofs Pipe.FieldPositions Pipe.ComposeProofs.
 Import ListNotations.
 
 (** ** the inline type conditions of a parsed selection, at any depth *)
@@ -121,11 +121,13 @@ Qed.
 (** ** what acceptance gives: every type condition of the document is a visible composite type *)
 Lemma accepted_type_conditions pi VS F d :
   Vld.ProofsCommon.order_ok pi ->
+  Vld.MemoEquiv.doc_field_positions_distinct (vld_of_syn d) ->
   validate_doc pi VS F d = Vld.Ast.Done [] ->
   Forall (fun c => exists b, Vld.ValidSpec.type_of VS F c = Some b /\ Vld.Ast.is_composite_body b = true)
          (Vld.ValidSpec.type_conditions (vld_of_syn d)).
 Proof.
-  intros Hpi Hv. unfold validate_doc in Hv.
+  intros Hpi Hpos Hv. unfold validate_doc in Hv.
+  apply (Vld.MemoEquiv.validate_memo_iff_parsed pi VS F (vld_of_syn d) Hpi Hpos) in Hv.
   apply Vld.ValidatorProofs.validate_model_nil in Hv. apply Vld.ValidatorProofs.all_rules_nil in Hv.
   destruct Hv as (_ & _ & _ & (Hf & _) & _).
   apply (Vld.ProofsFragDecl.rule_fragment_declarations_iff pi Hpi) in Hf.
@@ -199,10 +201,13 @@ Theorem accepted_conds_ok pi VS F ES bs d opname o vv E :
   ExeA.ArgSpec.conds_ok ES (ExeA.ArgData.doc_of (exe_of_syn d) o vv) E = true.
 Proof.
   intros Hpi Ha Hacc Hg Hev.
+  assert (Hparse : Syn.FrontEnd.parse_document_bytes bs = Syn.ParserModel.Out (Some d) []).
+  { destruct (front_cases pi Hpi VS F bs) as [(e & es & t & H & _)|[(d' & e & es & H & _)|(d' & H & Hp & _)]];
+      rewrite Hacc in H; try discriminate. inversion H; subst d'. exact Hp. }
   assert (Hv : validate_doc pi VS F d = Vld.Ast.Done []).
   { destruct (front_cases pi Hpi VS F bs) as [(e & es & t & H & _)|[(d' & e & es & H & _)|(d' & H & _ & Hv)]];
       rewrite Hacc in H; try discriminate. inversion H; subst d'. exact Hv. }
-  pose proof (accepted_type_conditions pi VS F d Hpi Hv) as Htc. rewrite Forall_forall in Htc.
+  pose proof (accepted_type_conditions pi VS F d Hpi (parsed_field_positions_distinct bs d [] Hparse) Hv) as Htc. rewrite Forall_forall in Htc.
   assert (Hok : forall x, In x d -> Forall (fun c => ExeA.ArgSpec.cond_ok ES c = true) (syn_def_conds x)).
   { intros x Hx. apply Forall_forall. intros c Hc.
     destruct (Htc c (type_conditions_incl d x c Hx Hc)) as (b & Hb & Hcomp).
